@@ -158,13 +158,17 @@ Payload(n) == [i \in 1..n |-> (i * i + 3 * i) % 251]
 DataKinds == {"raw", "nobits", "zlib", "zlib_badsize", "zlib_badtype", "zlib_twin"}
 Payload2(n) == [i \in 1..n |-> (7 * i + 11) % 253]
 ChdrRec(t, size, align) == [ch_type |-> N(t), ch_reserved |-> Z, ch_size |-> N(size), ch_addralign |-> N(align)]
+\* ch_addralign, the alignment of the uncompressed data (0 and 1 both mean "none"; it is reported as written), varied with the size
+ChAlign(n) == CASE n = 1 -> 0 [] n = 63 -> 1 [] n = 65 -> 4096 [] OTHER -> 32
+\* p_memsz of the loadable segment over the data: equal to, smaller than (0) and larger than p_filesz - the file bytes are p_filesz
+MemSz(n, dlen) == CASE n % 3 = 0 -> dlen [] n % 3 = 1 -> 0 [] OTHER -> dlen + 7
 DataSec(kind, n, cls, le, blk) ==
   LET p == Payload(n) IN
   CASE kind = "raw" -> Sec(Dot(<<100>>), N(1), N(2), N(64), p, N(n), Z, Z, N(16), Z)
     [] kind = "nobits" -> Sec(Dot(<<100>>), N(8), N(3), N(64), <<>>, N(n), Z, Z, N(16), Z)
-    [] OTHER -> LET ch == Ser(ChdrF(cls), ChdrRec(IF kind = "zlib_badtype" THEN 2 ELSE 1, IF kind = "zlib_badsize" THEN n + 1 ELSE n, 32), cls, le)
+    [] OTHER -> LET ch == Ser(ChdrF(cls), ChdrRec(IF kind = "zlib_badtype" THEN 2 ELSE 1, IF kind = "zlib_badsize" THEN n + 1 ELSE n, ChAlign(n)), cls, le)
                     z == ch \o Stored(IF kind = "twin2" THEN Payload2(n) ELSE p, blk)
-                IN Sec(Dot(<<100>>), N(1), N(2048), Z, z, N(Len(z)), Z, Z, N(1), Z)
+                IN Sec(Dot(<<100>>), N(1), N(2048), Z, z, N(Len(z)), Z, Z, N(8), Z)       \* sh_addralign 8: the alignment of the compressed bytes
 DataImage(cl, kind, n, blk) ==
   [Base(cl) EXCEPT !.secs = <<Sec(Dot(<<112>>), N(1), Z, Z, <<1, 2, 3>>, N(3), Z, Z, N(1), Z), DataSec(kind, n, cl[1], cl[2], blk)>>
                                 \* a second compressed section with the SAME name and a different payload
@@ -225,7 +229,7 @@ Case ==
              \* the loadable segment covers exactly the data section's file bytes; the interpreter string sits in front of it
              im1 == [im0 EXCEPT !.secs[1].data = InterpData(obj.n), !.secs[1].size = N(Len(InterpData(obj.n)))]
              off2 == SecOff(im1, 2)
-             im == [im1 EXCEPT !.segs[1].offset = N(off2), !.segs[1].filesz = N(dlen), !.segs[1].memsz = N(dlen),
+             im == [im1 EXCEPT !.segs[1].offset = N(off2), !.segs[1].filesz = N(dlen), !.segs[1].memsz = N(MemSz(obj.n, dlen)),
                                !.segs[2].offset = N(SecOff(im1, 1)), !.segs[2].filesz = N(Len(InterpData(obj.n))), !.segs[2].memsz = N(Len(InterpData(obj.n))),
                                !.segs[3].offset = N(off2), !.segs[3].filesz = N(dlen), !.segs[3].memsz = N(dlen), !.segs[3].vaddr = N(64),
                                !.segs[4].offset = N(off2), !.segs[4].filesz = N(obj.n), !.segs[4].memsz = N(obj.n), !.segs[4].vaddr = N(64)]
@@ -236,7 +240,7 @@ Case ==
          IN [mode |-> mode, kind |-> obj.kind, chunks |-> Chunks(im), secidx |-> UserIndex(im, 2),
              payload |-> IF obj.kind = "nobits" THEN Rep(0, obj.n) ELSE Payload(obj.n),
              data_size |-> IF obj.kind = "zlib_badsize" THEN obj.n + 1 ELSE obj.n,
-             data_align |-> IF obj.kind \in {"raw", "nobits"} THEN 16 ELSE 32,
+             data_align |-> IF obj.kind \in {"raw", "nobits"} THEN 16 ELSE ChAlign(obj.n),
              compressed |-> obj.kind \notin {"raw", "nobits"},
              error |-> obj.kind \in {"zlib_badsize", "zlib_badtype"},
              inseg |-> <<Bit(geo(dlen)), Bit(geo(obj.n))>>,
